@@ -27,6 +27,15 @@ class AuthBench:
         again = impl.verify_auth(pol, val)
         if again != il:
             chk.violation(f"the same call repeated gives another outcome ({label}): {il[:50]} then {again[:50]}", f"repeat-call auth {label.split('+')[0]}", dict(rp, second_outcome=again))
+        # the RP's yes/no policy as the integers 1 / 0 (a BOOLEAN database column, int(os.environ[...])): what is required is what is truthy
+        if pol.require_uv is True or pol.require_uv is False:
+            import copy as _copy
+            p2 = _copy.copy(pol)
+            p2.require_uv = 1 if pol.require_uv else 0
+            as_int = impl.verify_auth(p2, val)
+            if as_int != il:
+                chk.violation(f"require_user_verification={p2.require_uv} gives another outcome than {pol.require_uv} ({label}): {as_int[:50]} instead of {il[:50]}",
+                              f"policy-as-int auth {label.split('+')[0]}", dict(rp, policy_as_int={"require_user_verification": p2.require_uv}, outcome_as_int=as_int))
         if replay_extra:
             rp.update(replay_extra)
         if self.R:
